@@ -106,8 +106,14 @@ func (e *Engine) VerifyFunc(b Bound) (u *Unit) {
 		u.note("contract of %s is trusted: body not verified", c.Key)
 		return u
 	}
+	if c.HasMod {
+		e.resolveFrame(u, c, fn, params, free, entry)
+	}
 	fr.run(params, free, entry, "true")
-	if c.Pure {
+	if c.HasMod {
+		e.frameObligations(u, fr, c, fn, params, free, entry)
+	}
+	if false {
 		var wrote []string
 		for _, w := range fr.written {
 			for k := range w {
@@ -249,4 +255,124 @@ func (e *Engine) VerifyLemma(lm *Lemma) (u *Unit) {
 	}
 	u.addObl("lemma", "lemma: "+lm.Body.Src, fmt.Sprintf("%s:%d", lm.File, lm.Line), hyp, g)
 	return u
+}
+
+// frameObligations: every heap key the body writes must be covered by the modifies clause; for
+// keys named through an object, all other objects that existed at entry are unchanged.
+func (e *Engine) frameObligations(u *Unit, fr *frame, c *Contract, fn *ssa.Function, params, free []Val, entry *state) {
+	for _, m := range c.Modifies {
+		if m == "*" {
+			return
+		}
+	}
+	env := &specEnv{u: u, st: entry, old: entry, vars: map[string]Val{}, pkgPath: c.PkgPath, callee: fn}
+	for i, p := range fn.Params {
+		env.vars[p.Name()] = params[i]
+	}
+	if len(free) > 0 {
+		env.freeCells = map[string]*Ptr{}
+		for i, fv := range fn.FreeVars {
+			env.freeCells[fv.Name()] = u.ptrFromRef(free[i].t, fv.Type().Underlying().(*types.Pointer).Elem())
+		}
+	}
+	allowed := map[string][]string{} // key -> refs ("" = whole)
+	for k, rs := range u.allowedRefs {
+		allowed[k] = append(allowed[k], rs...)
+	}
+	for k := range u.allowedWhole {
+		allowed[k] = append(allowed[k], "")
+	}
+	_ = env
+	written := map[string]bool{}
+	all := false
+	for _, w := range fr.written {
+		for k := range w {
+			if k == "*" {
+				all = true
+			}
+			if strings.HasPrefix(k, "whole|") || strings.HasPrefix(k, "ref|") || k == allocKey || k == "*" {
+				continue
+			}
+			if strings.HasPrefix(k, "cell.") || strings.HasPrefix(k, "iter.") || strings.HasPrefix(k, "Blk.") || strings.HasPrefix(k, "Held.local.") {
+				continue
+			}
+			written[k] = true
+		}
+	}
+	pos := e.pos(fn.Pos())
+	if all {
+		u.addObl("frame", "the body calls code without a contract (whole heap havoc'd): the modifies clause cannot be established", pos, "true", "false")
+		return
+	}
+	alloc0 := entry.get(u, allocKey)
+	for _, k := range sortedKeys(written) {
+		refs, ok := allowed[k]
+		if !ok {
+			if !strings.HasPrefix(u.keySort[k], "(Array Int ") {
+				u.addObl("frame", fmt.Sprintf("%s is written but not listed in the modifies clause", k), pos, "true", "false")
+				continue
+			}
+			refs = nil // only objects allocated by the function itself may change
+		}
+		whole := false
+		for _, r := range refs {
+			if r == "" {
+				whole = true
+			}
+		}
+		if whole {
+			continue
+		}
+		var goals []string
+		for _, r := range fr.rets {
+			cond := "(<= r!f " + alloc0 + ")"
+			for _, x := range refs {
+				cond += " (not (= r!f " + x + "))"
+			}
+			goals = append(goals, fmt.Sprintf("(=> %s (forall ((r!f Int)) (=> (and %s) (= (select %s r!f) (select %s r!f)))))", r.cur, cond, r.st.get(u, k), entry.get(u, k)))
+		}
+		if len(goals) > 0 {
+			what := "only objects allocated by the function"
+			if len(refs) > 0 {
+				what = "only the objects named in the modifies clause (and fresh ones)"
+			}
+			u.addObl("frame", fmt.Sprintf("%s: %s change", k, what), pos, "true", "(and true "+strings.Join(goals, " ")+")")
+		}
+	}
+}
+
+// resolveFrame evaluates the modifies clause in the entry state (before the body is translated)
+func (e *Engine) resolveFrame(u *Unit, c *Contract, fn *ssa.Function, params, free []Val, entry *state) {
+	u.allowedRefs = map[string][]string{}
+	u.allowedWhole = map[string]bool{}
+	for _, m := range c.Modifies {
+		if m == "*" {
+			return
+		}
+	}
+	env := &specEnv{u: u, st: entry, old: entry, vars: map[string]Val{}, pkgPath: c.PkgPath, callee: fn}
+	for i, p := range fn.Params {
+		env.vars[p.Name()] = params[i]
+	}
+	if len(free) > 0 {
+		env.freeCells = map[string]*Ptr{}
+		for i, fv := range fn.FreeVars {
+			env.freeCells[fv.Name()] = u.ptrFromRef(free[i].t, fv.Type().Underlying().(*types.Pointer).Elem())
+		}
+	}
+	for _, m := range c.Modifies {
+		ts, ok := env.resolveModifies(m)
+		if !ok {
+			u.bindingError(fmt.Sprintf("modifies clause %q does not denote a heap location", m))
+			continue
+		}
+		for _, t := range ts {
+			if t.ref == "" {
+				u.allowedWhole[t.key] = true
+			} else {
+				u.allowedRefs[t.key] = append(u.allowedRefs[t.key], t.ref)
+			}
+		}
+	}
+	u.frameInv = true
 }
